@@ -262,7 +262,7 @@ func dedupInts(in []int, keep func(int) bool) []int {
 func configs(r *vrt.R) []cfgSpec {
 	thr := []int{0, 1, 64, 256}
 	if r.Thorough() {
-		thr = []int{0, 1, 2, 64, 256, 16384}
+		thr = []int{0, 1, 2, 64, 127, 128, 256, 16384}
 	}
 	var out []cfgSpec
 	for _, fc := range []bool{true, false} {
